@@ -215,17 +215,18 @@ def e2e_monitor(case, il, sl):
     close = next((l for l in lines if l.startswith("close")), "close ?")
     if "HANGS" in close:
         return ("Connection::close hangs after %s" % fault, "c05-e2e-hang")
-    if ROOT[fault] not in close:
-        return ("Connection::close reports %r after %s; the root cause is %s" % (close, fault, ROOT[fault]), "c05-e2e-root")
+    root = ROOT.get(fault) or ("ServerClosedConnection %s" % fault[8:])
+    if root not in close:
+        return ("Connection::close reports %r after %s; the root cause is %s" % (close, fault, root), "c05-e2e-root")
     if "transport-released t" not in lines:
         return ("the transport was not released after close (the I/O thread has not exited)", "c05-e2e-leak")
     return None
 
 
 def gen_e2e(tier, seed):
-    cs = [("eof", 0), ("reset", 0), ("garbage", 0), ("werr", 0), ("srvclose", 0), ("silence", 1)]
+    cs = [("eof", 0), ("reset", 0), ("garbage", 0), ("werr", 0), ("srvclose", 0), ("silence", 1), ("srvclose200", 0), ("srvclose541", 0)]
     if tier != "quick":
-        cs += [("eof", 1), ("werr", 2), ("silence", 2), ("garbage", 5), ("reset", 60), ("srvclose", 1)]
+        cs += [("eof", 1), ("werr", 2), ("silence", 2), ("garbage", 5), ("reset", 60), ("srvclose", 1), ("srvclose0", 0), ("srvclose65535", 0), ("srvclose200", 1)]
     return [Case("e%d" % i, ["run %s %d" % c], {"keep_prefix": 0, "fault": c[0]}) for i, c in enumerate(cs)]
 
 
@@ -297,7 +298,7 @@ def suites(tier, seed):
         Suite("close-root-cause", "api", lambda: gen_close(tier, seed), monitor=close_monitor, nontrivial=nontrivial, canon=apigen.canon, exhaustive=True,
               rule="Connection::close over ApiProbe with the I/O thread's end result in {Ok, UnexpectedSocketClose, MissedServerHeartbeats, ServerClosedConnection, panic} x I/O side alive/gone x what is queued for the close call {CloseOk, an error, nothing}"),
         Suite("faults-e2e", "faults", lambda: gen_e2e(tier, seed), monitor=e2e_monitor, nontrivial=nontrivial, compare=False, shards=6, timeout=300,
-              rule="real connection, real I/O thread and client threads over the mock transport: a consumer waiting, a call in flight, a publisher publishing, then EOF / reset / garbage bytes / write error / server Connection.Close / total silence with heartbeats: every thread released with an error within 5 s (2h+3 s for silence), Connection::close reports the root cause, the transport object is dropped"),
+              rule="real connection, real I/O thread and client threads over the mock transport: a consumer waiting, a call in flight, a publisher publishing, then EOF / reset / garbage bytes / write error / server Connection.Close with reply codes 320, 200, 541 (thorough: 0, 65535) / total silence with heartbeats: every thread released with an error within 5 s (2h+3 s for silence), Connection::close reports the root cause, the transport object is dropped"),
         Suite("faults", "machine", lambda: gen_faults(tier, seed), monitor=monitor, nontrivial=nontrivial, canon=mg.canon_nondet,
               candidate_ok=mg.candidate_ok, exhaustive=(tier != "quick"),
               rule="a busy session (2 channels, consumer with deliveries, call in flight, queued submissions, return/confirm/blocked listeners) whose inbound stream of ~%s is cut by EOF / an I/O error of each of 11 kinds (reset, timed out, interrupted, aborted, broken pipe, ...) / a corrupted frame at %s byte offset, and whose writes fail at every write call of a flush in small pieces; the same faults while the client's own close is under way (Close queued, CloseOk not yet received); afterwards every queue is polled to its end and every kind of submission is attempted" % (
